@@ -95,7 +95,7 @@ func genC06(r *vh.Runner) {
 		})
 	}
 	r.Case("exhaustive/complete", map[string]any{"sequences": len(seqs), "max_len": maxLen}, func(c *vh.Case) { r.Count("exhaustive_spaces_completed", 1) })
-	nr := r.Pick(300, 400000)
+	nr := r.Pick(300, 1500000)
 	for i := 0; i < nr; i++ {
 		r.Case(fmt.Sprintf("random/%d", i), map[string]any{"i": i}, func(c *vh.Case) {
 			rng := vh.NewRand(r.Seed, "c06-rand", i)
